@@ -259,6 +259,12 @@ func vClassify(err error) (class string, timeout bool) {
 			return "closedByPeer", timeout
 		}
 		if e.no == ErrConnClosed {
+			// connection.register: Exception(ErrConnClosed, err.Error()) - recover the errno from its text
+			for n := 1; n < 134; n++ {
+				if syscall.Errno(n).Error() == e.suffix {
+					return "register:" + strconv.Itoa(n), timeout
+				}
+			}
 			return "register:" + vSanitize(e.suffix), timeout
 		}
 		return "exception:" + strconv.Itoa(int(e.no)), timeout
@@ -347,12 +353,12 @@ type vFakeCtx struct {
 	err  error
 }
 
-func newVFakeCtx() *vFakeCtx                            { return &vFakeCtx{done: make(chan struct{})} }
-func (c *vFakeCtx) Deadline() (time.Time, bool)        { return time.Time{}, false }
-func (c *vFakeCtx) Done() <-chan struct{}              { return c.done }
-func (c *vFakeCtx) Value(interface{}) interface{}      { return nil }
-func (c *vFakeCtx) Err() error                         { c.mu.Lock(); defer c.mu.Unlock(); return c.err }
-func (c *vFakeCtx) fired() bool                        { return c.Err() != nil }
+func newVFakeCtx() *vFakeCtx                      { return &vFakeCtx{done: make(chan struct{})} }
+func (c *vFakeCtx) Deadline() (time.Time, bool)   { return time.Time{}, false }
+func (c *vFakeCtx) Done() <-chan struct{}         { return c.done }
+func (c *vFakeCtx) Value(interface{}) interface{} { return nil }
+func (c *vFakeCtx) Err() error                    { c.mu.Lock(); defer c.mu.Unlock(); return c.err }
+func (c *vFakeCtx) fired() bool                   { return c.Err() != nil }
 func (c *vFakeCtx) fire(kind byte) {
 	c.mu.Lock()
 	if c.err == nil {
@@ -368,12 +374,13 @@ func (c *vFakeCtx) fire(kind byte) {
 
 // vChooser supplies the environment's decisions: from the PRNG, or from a recorded script (replay).
 type vChooser interface {
+	reg() int // errno to provoke in connection.register (0 or 17)
 	attempt(i int, ctxFired bool) *vAttRec
-	ctl(i int) int                                  // errno of EPOLL_CTL_ADD to provoke (0 or 17)
-	firstWake(i int) (ev byte, late string)         // the event that wakes the first select
-	sockopt(i, j int) (gso, so int, peer bool)      // answers for iteration j
-	preEvents(i, j int) string                      // events delivered before the select of iteration j (j ≥ 1)
-	late(i, j int) string                           // events of a poller holding the token when connect returns after iteration j
+	ctl(i int) int                             // errno of EPOLL_CTL_ADD to provoke (0 or 17)
+	firstWake(i int) (ev byte, late string)    // the event that wakes the first select
+	sockopt(i, j int) (gso, so int, peer bool) // answers for iteration j
+	preEvents(i, j int) string                 // events delivered before the select of iteration j (j ≥ 1)
+	late(i, j int) string                      // events of a poller holding the token when connect returns after iteration j
 }
 
 type vRandChooser struct{ r *rand.Rand }
@@ -391,6 +398,13 @@ func vPickW(r *rand.Rand, vals []int, weights []int) int {
 		x -= w
 	}
 	return vals[len(vals)-1]
+}
+
+func (c *vRandChooser) reg() int {
+	if c.r.Intn(16) == 0 {
+		return 17
+	}
+	return 0
 }
 
 func (c *vRandChooser) attempt(i int, ctxFired bool) *vAttRec {
@@ -464,7 +478,12 @@ func (c *vRandChooser) late(i, j int) string {
 }
 
 // vScriptChooser replays a recorded scenario (attempts beyond the script get defaults).
-type vScriptChooser struct{ atts []*vAttRec }
+type vScriptChooser struct {
+	atts   []*vAttRec
+	regErr int
+}
+
+func (c *vScriptChooser) reg() int { return c.regErr }
 
 func (c *vScriptChooser) att(i int) *vAttRec {
 	if i < len(c.atts) {
@@ -624,6 +643,8 @@ func vRunScripted(ch vChooser, id int) (string, string) {
 	var lateDue time.Time
 	lateEvs := ""
 	preReg := -1 // descriptor the harness pre-registered to provoke EEXIST
+	wantReg := ch.reg()
+	var regFds []int // descriptors pre-registered so that connection.register fails with EEXIST
 	remoteSA := &syscall.SockaddrInet4{Port: 9, Addr: [4]byte{127, 0, 0, 1}}
 	notes := ""
 
@@ -747,6 +768,14 @@ loop:
 					r.rep <- vRep{ok: true, sa: remoteSA}
 				}
 			case "getsockname":
+				if wantReg != 0 {
+					// the connect has returned (its temporary registration is gone): occupy the descriptor's
+					// place in the epoll set so that connection.register's EPOLL_CTL_ADD fails
+					var evt epollevent
+					if err := EpollCtl(poll.fd, syscall.EPOLL_CTL_ADD, cur.fd, &evt); err == nil {
+						regFds = append(regFds, cur.fd)
+					}
+				}
 				port := 10
 				if cur.self {
 					port = 9
@@ -822,7 +851,11 @@ loop:
 		EpollCtl(poll.fd, syscall.EPOLL_CTL_DEL, preReg, &evt)
 	}
 
-	parts := []string{fmt.Sprintf("dial id=%d auto=1 reg=0", id)}
+	for _, fd := range regFds {
+		var evt epollevent
+		EpollCtl(poll.fd, syscall.EPOLL_CTL_DEL, fd, &evt)
+	}
+	parts := []string{fmt.Sprintf("dial id=%d auto=1 reg=%d", id, wantReg)}
 	for _, a := range atts {
 		parts = append(parts, a.String())
 	}
@@ -1471,7 +1504,9 @@ func vScriptedMain(seed int64, n int, opsOut, implOut, replay string) int {
 			// select's choice cannot be forced: retry until the run follows the recorded script
 			var op, impl string
 			for try := 0; try < 40; try++ {
-				op, impl = vRunScripted(&vScriptChooser{atts: vParseScript(l)}, id)
+				hd := vParseKV(strings.Fields(strings.SplitN(l, "::", 2)[0]))
+				regErr, _ := strconv.Atoi(hd["reg"])
+				op, impl = vRunScripted(&vScriptChooser{atts: vParseScript(l), regErr: regErr}, id)
 				got := strings.SplitN(op, " :: ", 2)
 				if len(want) == 2 && len(got) == 2 && vStripFds(want[1]) == vStripFds(got[1]) {
 					break
